@@ -1853,24 +1853,11 @@ public:
 	  
 	  GrOps::apply_delta(meet_g, delta);
 	  
-	  // Recover updated LBs and UBs.
-	  if (crab_domain_params_man::get().zones_close_bounds_inline()) {
-	    Wt_min min_op;
-	    for (auto e : delta) {
-	      if (meet_g.elem(0, e.first.first))
-		meet_g.update_edge(0,
-				   meet_g.edge_val(0, e.first.first) + e.second,
-				   e.first.second, min_op);
-	      if (meet_g.elem(e.first.second, 0))
-		meet_g.update_edge(e.first.first,
-				   meet_g.edge_val(e.first.second, 0) + e.second,
-				   0, min_op);
-	    }
-	  } else {
-	    delta.clear();
-	    GrOps::close_after_assign(meet_g, meet_pi, 0, delta);
-	    GrOps::apply_delta(meet_g, delta);
-	  }
+	  // Recover updated LBs and UBs (see operator&: the bounds are
+	  // always closed from vertex 0).
+	  delta.clear();
+	  GrOps::close_after_assign(meet_g, meet_pi, 0, delta);
+	  GrOps::apply_delta(meet_g, delta);
 	}
       
 	check_potential(meet_g, meet_pi, __LINE__);
@@ -1990,24 +1977,14 @@ public:
 	  
 	  GrOps::apply_delta(meet_g, delta);
 	  
-	  // Recover updated LBs and UBs.
-	  if (crab_domain_params_man::get().zones_close_bounds_inline()) {
-	    Wt_min min_op;
-	    for (auto e : delta) {
-	      if (meet_g.elem(0, e.first.first))
-		meet_g.update_edge(0,
-				   meet_g.edge_val(0, e.first.first) + e.second,
-                                 e.first.second, min_op);
-	      if (meet_g.elem(e.first.second, 0))
-		meet_g.update_edge(e.first.first,
-				   meet_g.edge_val(e.first.second, 0) + e.second,
-				   0, min_op);
-	    }
-	  } else {
-	    delta.clear();
-	    GrOps::close_after_assign(meet_g, meet_pi, 0, delta);
-	    GrOps::apply_delta(meet_g, delta);
-	  }
+	  // Recover updated LBs and UBs. Pushing the bounds only along
+	  // the edges that the closure has just added is not enough: a
+	  // bound of one operand also combines with the edges that the
+	  // other operand already had (e.g., {a<=5} & {b-a<=0} implies
+	  // b<=5), so the bounds are always closed from vertex 0.
+	  delta.clear();
+	  GrOps::close_after_assign(meet_g, meet_pi, 0, delta);
+	  GrOps::apply_delta(meet_g, delta);
 	}
 	check_potential(meet_g, meet_pi, __LINE__);
 	DBM_t res(std::move(meet_verts), std::move(meet_rev), std::move(meet_g),
